@@ -1,23 +1,41 @@
 import Swat4.Drv.Common
+import Swat4.Drv.C03
 import Swat4.Model.Browsing
+import Swat4.Model.Filter
 import Swat4.Spec.GOA
 import Swat4.Spec.ServerList
 import Swat4.Spec.ServerListExpected
+import Swat4.Spec.FilterSpec
+import Swat4.Spec.FilterBridge
+import Swat4.Lemmas.BrowserEndToEnd
 /-!
 Driver side of C01 (see `harness/internal/c01/c01.go` for the line format):
 
 * `C01 req <payload> => ok <filters> <fields> <challenge> | err:… | panic:…`
-* `C01 reply <cliphint> <hdr7> <game1> <game2> <challenge> <filter> <rawfields> <options> <servers>
-     => <sentpayload> <clientip> <clientport> <stored> <reply|closed>`
-* `C01 replyraw <cliphint> <payload> <servers> => <clientip> <clientport> <stored> <reply|closed>`
+* `C01 reply <cliphint> <hdr7> <game1> <game2> <challenge> <filter> <rawfields> <options> <servers> [<intent>]
+     => <sentpayload> <clientip> <clientport> <now> <liveness> <stored> <reply|closed>`
+* `C01 replyraw <cliphint> <payload> <servers> => <clientip> <clientport> <now> <liveness> <stored> <reply|closed>`
 
 The registry the model and the oracle work from is `<stored>` (what the repository returned
-right before the request).  Listing order is Go map order, so the model is run on the stored
-servers in the order the reply lists them (recovered by matching whole packed entries), and the
-oracle compares entries as multisets.
+right before the request): records `a.b.c.d:port:queryport:status@<refreshed>:v1:…:vn`, each turned into a
+`BrowserE2E.Stored` (the filter model's `Record` — status, `RefreshedAt`, named `Info` — plus IP, port, query port).
+
+**Model side**: `BrowserE2E.browserHandle` — the function `C01.browser_end_to_end*` are about (2048-byte read,
+`NewRequest`, the request's filter string → query, `listservers` with status `master`, the harness's clock and
+liveness, `packServers`, `Encrypt`) — on the bytes the client sent; its output is compared byte for byte with the
+reply.  Listing order is Go map order, which `browserHandle` takes as the parameter `order`: the driver passes the
+permutation that lists the repository's result in the order the reply lists it (recovered by matching whole packed
+entries; servers the reply does not list follow in registry order).
+
+**Oracle** (on the implementation's bytes): SDK reference decryption + SDK framing decoder give exactly
+`expectedList` for the requester, the known fields and the stored servers that the SPECIFICATION selects
+(`FilterSpec.selected`: status `master`, refreshed at or after `now − liveness`, every clause satisfied), entries as
+a multiset.  The clauses are the generator's declared reading of the filter (`<intent>`, checked against the filter
+bytes with `FilterSpec.render` as in C03) or, without one, the model's reading (`BrowserE2E.clausesOf`).  A
+well-formed request longer than the read buffer must get no reply (`C01_oversize_no_reply`).
 -/
 namespace Swat4.Drv.C01
-open Swat4 Swat4.Drv Swat4.Browsing Swat4.SBList
+open Swat4 Swat4.Drv Swat4.Browsing Swat4.SBList Swat4.BrowserE2E
 
 def cfg : Cfg := Cfg.facts
 def schema : Schema := Schema.facts
@@ -38,35 +56,30 @@ def ip? (s : String) : Option IPv4 :=
   | some [a, b, c, d] => some ⟨a, b, c, d⟩
   | _ => none
 
-def vals? : Schema → List String → Option Info
-  | [], [] => some []
-  | (_, k) :: sch, t :: ts => do
-    let v ← (if k = 0 then t.toInt?.map Val.int
-      else if k = 1 then (if t = "1" then some (Val.bool true) else if t = "0" then some (Val.bool false) else none)
-      else if k = 2 then (hex? t).map Val.str
-      else none)
-    let rest ← vals? sch ts
-    pure (v :: rest)
-  | _, _ => none
-
-/-- `a.b.c.d:port:queryport:status:v1:…:vn` -/
-def record? (s : String) : Option (Server × Nat) :=
+/-- `a.b.c.d:port:queryport:status@<refreshed UnixNano|z>:v1:…:vn` (the values typed by the Info schema, as in C03) -/
+def stored? (s : String) : Option Stored :=
   match s.splitOn ":" with
   | ip :: port :: qport :: status :: vals => do
-    let ip ← ip? ip
-    let port ← port.toNat?
+    let ipv ← ip? ip
+    let p ← port.toNat?
     let q ← qport.toInt?
-    let st ← status.toNat?
-    let info ← vals? schema vals
-    pure ({ ip, port, queryPort := q, info }, st)
+    let (st, rf) ← (match status.splitOn "@" with
+      | [st, rf] => do
+        let st ← st.toNat?
+        let rf ← if rf = "z" then some FTime.zero else (int? rf).map FTime.at
+        pure (st, rf)
+      | _ => none)
+    let info ← C03.infoOfToks Facts.infoSchema vals
+    pure { row := ⟨s!"{ip}:{port}", st, rf, info⟩, ip := ipv, port := p, queryPort := q }
   | _ => none
 
-def records? (s : String) : Option (List (Server × Nat)) :=
-  if s = "_" then some [] else (s.splitOn ",").mapM record?
+def records? (s : String) : Option (List Stored) :=
+  if s = "_" then some [] else (s.splitOn ",").mapM stored?
 
-/-- the servers the browser lists: status has the `master` bit (all planted records are fresh) -/
-def selectedOf (recs : List (Server × Nat)) : List Server :=
-  (recs.filter fun r => r.2 &&& 2 ≠ 0).map (·.1)
+/-- the stored servers the SPECIFICATION selects for the clauses `cs` (`FilterSpec.selected`, status `master`);
+for `cs = clausesOf filter` this is `recs.filter (matching now liveness filter)` of `browser_end_to_end` -/
+def specSelected (now liveness : Int) (cs : List FilterSpec.Clause) (recs : List Stored) : List Stored :=
+  recs.filter fun x => FilterSpec.selected now liveness Facts.statusMaster cs (FilterSpec.toServer x.row)
 
 def renderOutcome : Outcome Request → List String
   | .ok r => ["ok", Bytes.toHexTok r.filters, hexListTok r.fields, Bytes.toHexTok r.challenge.toList]
@@ -82,15 +95,18 @@ def isPanicTok (s : String) : Bool := s.startsWith "panic" || s = "handler-hung"
 def recoverRnd (secret chal out : Bytes) : Bytes :=
   (List.range 23).map fun i => out.getD i 0 ^^^ secret.getD (i % 6) 0 ^^^ chal.getD (i % 8) 0
 
-/-- put `pool` into the order in which `plain` lists their packed entries (entries are
-self-delimiting, so greedy whole-entry matching is exact); `none` if `plain` is not such a sequence -/
-def orderLike (entryOf : Server → Bytes) : Nat → Bytes → List Server → List Server → Option (List Server × Bytes)
-  | 0, b, _, acc => some (acc.reverse, b)
+/-- the `order` handed to `browserHandle` (Go map iteration): `pool` with the servers whose packed entries `plain`
+lists first, in that order (entries are self-delimiting, so greedy whole-entry matching is exact), and the rest after
+them in their own order.  Always a permutation of `pool`. -/
+def orderAs (entryOf : Stored → Bytes) : Nat → Bytes → List Stored → List Stored → List Stored
+  | 0, _, pool, acc => acc.reverse ++ pool
   | fuel + 1, b, pool, acc =>
-    if pool.isEmpty then some (acc.reverse, b) else
-    match pool.find? fun s => (entryOf s).isPrefixOf b with
-    | none => none
-    | some s => orderLike entryOf fuel (b.drop (entryOf s).length) (pool.erase s) (s :: acc)
+    match pool.findIdx? fun s => (entryOf s).isPrefixOf b with
+    | none => acc.reverse ++ pool
+    | some i =>
+      match pool[i]? with
+      | none => acc.reverse ++ pool
+      | some s => orderAs entryOf fuel (b.drop (entryOf s).length) (pool.eraseIdx i) (s :: acc)
 
 /-- the oracle of C01 on the implementation's reply: decrypt with the SDK reference cipher, decode
 with the SDK framing rules, compare with the promised content (entries as a multiset) -/
@@ -113,10 +129,12 @@ def wfReqB (r : ListRequest) : Bool :=
   r.header.length == 7 && r.gameName.all (· ≠ 0) && r.queryGame.all (· ≠ 0) && r.filter.all (· ≠ 0)
     && r.rawFields.all (fun f => f.all fun x => x ≠ 0 && x ≠ 0x5c) && (reqBody r).length + 2 < 65536
 
-/-- model vs implementation for one request/registry; returns `(same, info, parsedRequest?)` -/
-def compareReply (payload : Bytes) (client : Client) (selected : List Server) (replyTok : String) :
+/-- model vs implementation for one request/registry; returns `(same, info, parsedRequest?)`.
+The model is `browserHandle` on the bytes sent; the request is parsed first (from the same `take readBuffer` cut,
+`browserHandle_ok` / `browserHandle_error`) because the challenge is needed to recover the header draws from the reply. -/
+def compareReply (sent : Bytes) (client : Client) (recs : List Stored) (now liveness : Int) (replyTok : String) :
     Bool × String × Option Request :=
-  match parseRequest cfg payload with
+  match parseRequest cfg (sent.take readBuffer) with
   | .ok req =>
     match hex? replyTok with
     | none => (false, s!"model=reply impl={replyTok}", some req)
@@ -125,20 +143,19 @@ def compareReply (payload : Bytes) (client : Client) (selected : List Server) (r
       let chal := req.challenge.toList
       let fields := if req.fields.length > 255 then req.fields.take 255 else req.fields
       let hdrLen := (packServers schema client req.fields []).length - 5
-      let ordered : List Server :=
+      let order : List Stored → List Stored :=
         match GOA.refDecrypt Facts.gameEncKey chal reply with
-        | none => selected
-        | some plain =>
-          match orderLike (packServer schema fields) selected.length (plain.drop hdrLen) selected [] with
-          | some (o, _) => o
-          | none => selected
+        | none => id
+        | some plain => fun l => orderAs (fun x => packServer schema fields (toSel x)) l.length (plain.drop hdrLen) l []
       match toVec? 23 (recoverRnd Facts.gameEncKey chal reply) with
       | none => (false, "rnd", some req)
       | some rnd =>
-        match process cfg schema gameKey client payload ordered rnd with
+        match browserHandle order recs now liveness client rnd sent with
         | .ok out =>
           if out == reply then (true, "", some req)
-          else (false, s!"reply-bytes-differ model-plain={Bytes.toHexTok (packServers schema client req.fields ordered)}", some req)
+          else
+            let listing := listStored order recs now liveness Facts.statusMaster (Filter.browserQuery req.filters)
+            (false, s!"reply-bytes-differ model-plain={Bytes.toHexTok (packServers schema client req.fields (listing.map toSel))}", some req)
         | _ => (false, "model-process-failed", some req)
   | .error _ => (replyTok == "closed", s!"model=closed impl={replyTok.take 40}", none)
   | .panic => (isPanicTok replyTok, "model=panic", none)
@@ -154,21 +171,32 @@ def handle (args out : List String) : Verdict :=
       let same := if isPanicTok o then m == .panic else renderOutcome m == o :: rest
       -- the parser never panics on any input (parse_total)
       verdict same (!isPanicTok o) s!"model={" ".intercalate (renderOutcome m)}"
-  | ["reply", _, hdr, g1, g2, chal, filt, raw, opts, _], [sent, cip, cport, stored, reply] =>
+  | "reply" :: _ :: hdr :: g1 :: g2 :: chal :: filt :: raw :: opts :: _ :: intent, [sent, cip, cport, now, liv, stored, reply] =>
+    let intent? : Option C03.Intent := match intent with
+      | [] => some .none
+      | [t] => C03.intentOfTok t
+      | _ => none
     match hex? hdr, hex? g1, hex? g2, hex? chal, hex? filt, hexList? raw, hex? opts, hex? sent, ip? cip, cport.toNat?, records? stored with
     | some hdr, some g1, some g2, some chal, some filt, some raw, some opts, some sent, some cip, some cport, some recs =>
       let wf? : Option Bool := if opts = [0, 0, 0, 0] then some false else if opts = [0, 0, 0, 1] then some true else none
-      match wf?, toVec? 8 chal with
-      | none, _ => .bad "options"
-      | _, none => .bad "challenge length"
-      | some wf, some chalv =>
+      match wf?, toVec? 8 chal, int? now, int? liv, intent? with
+      | none, _, _, _, _ => .bad "options"
+      | _, none, _, _, _ => .bad "challenge length"
+      | _, _, none, _, _ => .bad "clock"
+      | _, _, _, none, _ => .bad "liveness"
+      | _, _, _, _, none => .bad "intent token"
+      | some wf, some chalv, some now, some liv, some intent =>
         let r : ListRequest := { header := hdr, gameName := g1, queryGame := g2, challenge := chalv, filter := filt, rawFields := raw, withFields := wf }
         if encodeReq r != sent then .bad "encodeReq differs from the payload the harness sent" else
+        if !C03.intentOk filt intent then .bad "intent" else
         let client : Client := { ip := cip, port := cport }
-        let selected := selectedOf recs
-        let (same, info, _) := compareReply sent client selected reply
+        let (same, info, _) := compareReply sent client recs now liv reply
         if isPanicTok reply then verdict same false s!"sig=handler-panic {info}" else
         let known := knownFields cfg.isQueryField r
+        -- the servers the specification selects for the declared reading of the filter
+        let selected := (specSelected now liv (C03.oracleClauses filt intent) recs).map toSel
+        -- a well-formed request that does not fit the read buffer gets no reply (`C01_oversize_no_reply`)
+        if wfReqB r && sent.length > readBuffer then verdict same (reply == "closed") s!"oversize:{sent.length} {info}" else
         -- the property speaks about well-formed requests with 1..cap known fields and storable registries
         if wfReqB r && known.length ≥ 1 && known.length ≤ cfg.maxFields && inScope selected then
           match hex? reply with
@@ -176,21 +204,21 @@ def handle (args out : List String) : Verdict :=
           | none => verdict same false s!"no-reply:{reply.take 40} {info}"
         else verdict same true info
     | _, _, _, _, _, _, _, _, _, _, _ => .bad "C01 reply tokens"
-  | ["replyraw", _, payload, _], [cip, cport, stored, reply] =>
-    match hex? payload, ip? cip, cport.toNat?, records? stored with
-    | some payload, some cip, some cport, some recs =>
+  | ["replyraw", _, payload, _], [cip, cport, now, liv, stored, reply] =>
+    match hex? payload, ip? cip, cport.toNat?, int? now, int? liv, records? stored with
+    | some payload, some cip, some cport, some now, some liv, some recs =>
       let client : Client := { ip := cip, port := cport }
-      let selected := selectedOf recs
-      let (same, info, req) := compareReply payload client selected reply
+      let (same, info, req) := compareReply payload client recs now liv reply
       if isPanicTok reply then verdict same false s!"sig=handler-panic {info}" else
       -- raw payloads: when the model accepts the request and the handler replied, the reply must
-      -- still decode to the promised content (challenge and fields as the model parsed them)
+      -- still decode to the promised content (challenge, fields and filter string as the model parsed them)
       match req, hex? reply with
       | some req, some rb =>
+        let selected := (specSelected now liv (clausesOf req.filters) recs).map toSel
         if reply != "-" && inScope selected then verdict same (oracle req.challenge.toList client req.fields selected rb) info
         else verdict same true info
       | _, _ => verdict same true info
-    | _, _, _, _ => .bad "C01 replyraw tokens"
+    | _, _, _, _, _, _ => .bad "C01 replyraw tokens"
   | _, _ => .bad "C01 shape"
 
 end Swat4.Drv.C01
